@@ -72,7 +72,7 @@ def enum_arm_groups(g, fn, enum_path, which=0):
 
 def extract(g, spec):
     kind = spec['kind']
-    fn = g.fn(spec['fn'])
+    fn = g.fn(spec['fn']) if 'fn' in spec else None
     which = spec.get('which', 0)
     out = {}
     if kind == 'arms':
@@ -84,6 +84,14 @@ def extract(g, spec):
         drop = set(spec.get('ignore_calls', []))
         if drop:
             out = {k: dict(v, calls=[c for c in v['calls'] if c not in drop]) for k, v in out.items()}
+        return out
+    if kind == 'fnsum':
+        # whole-body summary of each listed function: stores to *self, calls, error variants
+        summ = A.ArmSummarizer(g)
+        for path in spec['fns']:
+            f2 = g.fn(path)
+            w, c, e = summ.summarize_blocks(f2, f2.reach, 1, depth=spec.get('depth', 2))
+            out[path] = {'writes': sorted(w), 'calls': sorted(c), 'errs': sorted(e)}
         return out
     ef = E.Eff(g, extra_atoms=spec.get('extra_atoms'))
     if kind == 'fneff':
@@ -180,7 +188,7 @@ def run_spec(rep, g, spec, rule):
     table = load_table(spec['id'])
     rows = table['rows']
     got = extract(g, spec)
-    fn = g.fn(spec['fn'])
+    fn = g.fn(spec['fn']) if 'fn' in spec else g.fn(spec['fns'][0])
     loc = fn.loc()
     floor = table.get('floor', max(1, len(rows) - 0))
     rep.floor(rule, 'rows of %s' % spec['id'], len(got), floor)
@@ -191,7 +199,7 @@ def run_spec(rep, g, spec, rule):
         elif name not in got:
             rep.bad(rule, key, 'the reviewed table %s has a row for %s but the code has no arm for it' % (spec['id'], name), loc)
         elif got[name] != rows[name]:
-            rep.bad(rule, key, '%s arm %s: code %s != reviewed %s' % (spec['fn'].split('::')[-1], name,
+            rep.bad(rule, key, '%s arm %s: code %s != reviewed %s' % (spec.get('fn', 'fn').split('::')[-1], name,
                                                                    json.dumps(got[name]), json.dumps(rows[name])), loc)
         else:
             rep.ok(rule, key, json.dumps(rows[name])[:160], loc, why='equals the reviewed row of tables/spec/%s.json' % spec['id'])
@@ -204,7 +212,7 @@ def run_specs(rep, ctx, prop):
     n = 0
     for sp in specs_for(prop):
         rep.rule(sp['rule'], 'per-arm fingerprint (%s) of %s equals the reviewed table tables/spec/%s.json'
-                 % (sp['kind'], sp['fn'], sp['id']))
+                 % (sp['kind'], sp.get('fn') or '%d functions' % len(sp['fns']), sp['id']))
         run_spec(rep, ctx.g, sp, sp['rule'])
         n += 1
     return n
